@@ -116,6 +116,47 @@ def run(ctx):
         st["hist"]["failing_dirs_%d" % min(len(failing), 3)] += 1
         if len(st["samples"]) < 2 and failing and len(rows) < 12:
             st["samples"].append({"argv": [j["q"]], "uid": NOBODY, "rows": rows, "stderr": err[:200], "status": r["status"]})
+    # ---- (1b) the failing directory is itself a search root (mode 000 for uid 65534, or not a directory at all) ----
+    rjobs = []
+    for t in range(12 if ctx.tier == "quick" else 150):
+        base = os.path.join(ctx.scratch, "fr%d" % t)
+        os.mkdir(base)
+        good = os.path.join(base, "good")
+        os.mkdir(good)
+        fstree.build(good, fstree.gen_tree(rng, max_entries=8, max_depth=3, kinds=("file", "dir"), adversarial=0.05))
+        kind = rng.choice(["locked", "locked", "plainfile"])
+        bad = os.path.join(base, "bad")
+        if kind == "locked":
+            os.mkdir(bad)
+            open(os.path.join(bad, "inside.txt"), "w").close()
+            os.chmod(bad, 0o000)
+        else:
+            open(bad, "w").close()
+        order = rng.choice([("bad", "good"), ("good", "bad"), ("bad",)])
+        mode = rng.choice(["", " bfs", " dfs"])
+        tail = rng.choice(["", "", " order by path", " limit 1000"])
+        q = "path from %s%s into list" % (", ".join(x + mode for x in order), tail)
+        rjobs.append(dict(base=base, q=q, order=order, kind=kind, good=good))
+
+    def rone(j):
+        return ctx.impl.rows([j["q"]], cwd=j["base"], user=NOBODY)
+
+    for j, r in zip(rjobs, pmap(rone, rjobs)):
+        st["evaluations"] += 1
+        rows = [v.decode("utf-8", "surrogateescape") for v in r["values"]]
+        err = r["stderr"].decode("utf-8", "replace")
+        case = {"tree": j["base"], "cwd": j["base"], "argv": [j["q"]], "uid": NOBODY, "failing_root": "bad (%s)" % j["kind"]}
+        exp = [p_ for _, p_, _ in walklib.ref_listing(fstree.observe(j["good"]), "good", 0, 0)] if "good" in j["order"] else []
+        if sorted(rows) != sorted(exp):
+            ctx.violation("impl-violates-spec", "rows of the healthy root are not complete next to a failing root", input=case, observed=rows[:30], expected=exp[:30])
+        elif r["status"] != 1:
+            ctx.violation("impl-violates-spec", "exit status %s although the root `bad` could not be listed (expected 1)" % r["status"], input=case, stderr=err[:300])
+        elif "bad" not in err or err.count("os error") != 1:
+            ctx.violation("impl-violates-spec", "standard error does not name the failing root exactly once: %r" % err[:300], input=case)
+        else:
+            st["agreed"] += 1
+            st["distinct"].add(("root", j["base"]))
+        st["hist"]["failing_root_%s" % j["kind"]] += 1
     # ---- (2) unreadable files / dangling links: only their own content columns are empty ----
     for j in jobs[::2][: (8 if ctx.tier == "quick" else 150)]:
         st["evaluations"] += 1
@@ -215,7 +256,7 @@ def run(ctx):
                 ctx.notes.append("F47: witness no longer hangs (status %s); update KNOWN_FINDINGS.json" % r["status"])
     ctx.coverage.update(
         evaluations=st["evaluations"], distinct_nontrivial=len(st["distinct"]), traces_validated_against_impl=st["agreed"],
-        rule="(1) random trees with 0-3 directories made unlistable (modes 700/711/000) searched as uid 65534, bfs and dfs, with and without maxdepth: rows must be exactly the entries outside those directories, stderr must name each failing directory, status 1 iff one is in reach; compared with model.Walk (listable flags from the observer) and an independent listing; (2) files made unreadable (600) and dangling links: only their own sha1/line_count/is_shebang are empty, sizes and other rows unchanged (hashlib oracle); (3) the reader closes stdout after k bytes for k in %s.. x six formats x streamed/ordered/filtered paths (+ aggregate and grouped): status 0 or 1 and no panic text. non-trivial = a run with at least one fault in reach" % offsets[:6],
+        rule="(1b) two-root searches where one root is itself unlistable (mode 000) or a regular file: status 1, the root named once on stderr, the healthy root complete; (1) random trees with 0-3 directories made unlistable (modes 700/711/000) searched as uid 65534, bfs and dfs, with and without maxdepth: rows must be exactly the entries outside those directories, stderr must name each failing directory, status 1 iff one is in reach; compared with model.Walk (listable flags from the observer) and an independent listing; (2) files made unreadable (600) and dangling links: only their own sha1/line_count/is_shebang are empty, sizes and other rows unchanged (hashlib oracle); (3) the reader closes stdout after k bytes for k in %s.. x six formats x streamed/ordered/filtered paths (+ aggregate and grouped): status 0 or 1 and no panic text. non-trivial = a run with at least one fault in reach" % offsets[:6],
         samples=st["samples"], distribution=dict(st["hist"]))
     return ctx.finish(trusted=["which write call the kernel fails after the reader closes the pipe depends on LineWriter buffering; the theorem quantifies over every write instead",
                                "permissions are judged for uid 65534 from the mode bits (files are created by root, so the 'other' bits apply)"])
